@@ -139,7 +139,7 @@ def gen_chain_list(draw, tier):
 
 # ---- exhaustive small scope ---------------------------------------------------------------
 
-_EX_SYMS = [0, 2, 3]
+_EX_SYMS = [0, -1, -2]      # the identity and two ids whose CPython hashes collide (hash(-1) == hash(-2) == -2)
 _EX_COEFFS = [1.0, -1.0, 2.0, 0.5]
 
 
